@@ -48,6 +48,8 @@ type Cfg struct {
 	Prefix string `json:"prefix"`
 	Vetoes int    `json:"vetoes"` // number of BeforeChange callbacks (badger only); a value with N%7==3 is vetoed by exactly one of them
 	OnChg  int    `json:"onchange"`
+	// OnChgFirst: the OnChange listeners are registered before the BeforeChange ones.
+	OnChgFirst bool `json:"onChgFirst,omitempty"`
 }
 
 // Op is one operation of a history.
@@ -188,6 +190,11 @@ func newFixture(cfg Cfg) (*fixture, error) {
 			st.SetType(item{})
 		}
 		st.SetPrefix(cfg.Prefix)
+		if cfg.OnChgFirst {
+			for i := 0; i < cfg.OnChg; i++ {
+				st.OnChange(onChangeN(i))
+			}
+		}
 		for i := 0; i < cfg.Vetoes; i++ {
 			i := i
 			st.BeforeChange(func(id string, before, after interface{}) error {
@@ -197,7 +204,7 @@ func newFixture(cfg Cfg) (*fixture, error) {
 				return nil
 			})
 		}
-		for i := 0; i < cfg.OnChg; i++ {
+		for i := 0; i < cfg.OnChg && !cfg.OnChgFirst; i++ {
 			st.OnChange(onChangeN(i))
 		}
 		f.st = st
@@ -475,6 +482,7 @@ func genCfg() *rapid.Generator[Cfg] {
 		c.Prefix = rapid.SampledFrom([]string{"", "pfx", "a.b"}).Draw(t, "prefix")
 		c.Vetoes = rapid.IntRange(0, 3).Draw(t, "vetoes")
 		c.OnChg = rapid.SampledFrom([]int{1, 1, 2, 0}).Draw(t, "onchange")
+		c.OnChgFirst = rapid.Bool().Draw(t, "onChgFirst")
 		return c
 	})
 }
@@ -583,6 +591,9 @@ type interval struct {
 	id         string
 	write      bool
 	start, end int64
+	in         cInput
+	out        cOutput
+	g          int
 }
 
 // runConcurrent runs goroutines x transactions and checks the three oracles.
@@ -642,7 +653,7 @@ func runConcurrent(cfg Cfg, progs [][]COp) (msg string, contended bool) {
 				ret := atomic.AddInt64(&clock, 1)
 				mu.Lock()
 				ops[op.ID] = append(ops[op.ID], porcupine.Operation{ClientId: g, Input: in, Call: call, Output: out, Return: ret})
-				ivs = append(ivs, interval{id: op.ID, write: op.K != "value" && op.K != "exists", start: acquired, end: released})
+				ivs = append(ivs, interval{id: op.ID, write: op.K != "value" && op.K != "exists", start: acquired, end: released, in: in, out: out, g: g})
 				if out.OK && (op.K == "create" || op.K == "update" || op.K == "delete") {
 					if okWriters[op.ID] == nil {
 						okWriters[op.ID] = map[int]bool{}
@@ -711,6 +722,21 @@ func runConcurrent(cfg Cfg, progs [][]COp) (msg string, contended bool) {
 				}
 			}
 		}
+	}
+	// (4) the transactions of an id, in the order in which they held its lock, are a run of the
+	// key-value register: a reader that had to wait for a writer sees what the writer wrote
+	sort.SliceStable(ivs, func(i, j int) bool { return ivs[i].start < ivs[j].start })
+	state := map[string]interface{}{}
+	for _, iv := range ivs {
+		st, ok := state[iv.id]
+		if !ok {
+			st = regModel.Init()
+		}
+		legal, next := regModel.Step(st, iv.in, iv.out)
+		if !legal {
+			return fmt.Sprintf("id %q: goroutine %d's %s (value %s) returned %+v while it held the lock (interval [%d,%d]); the transactions that held the lock before it left the value %q", iv.id, iv.g, iv.in.K, iv.in.V, iv.out, iv.start, iv.end, st), contended
+		}
+		state[iv.id] = next
 	}
 	return "", contended
 }
